@@ -66,3 +66,70 @@ func ZZFollowerApply(n, k int) {
 	}
 	vReach("end")
 }
+
+// ZZFollowerApplyDup (C07): apply rounds under RE-DELIVERY. The follower's apply loop (the real
+// applyAllCommittedEntries goroutine) runs while the harness plays the stream handler, calling the real append
+// directly: k new entries with symbolic non-decreasing commit offsets, each synced and announced to the apply
+// loop, then — as after a cursor reconnect — the last entry AGAIN (a duplicate) advertising a commit offset
+// that has advanced to it, then one more entry. Opening a log reader is a schedule point, so an apply round in
+// progress can be overtaken at its start. Apply rounds never overlap (at most one reader of the apply path is
+// open at any time), and at quiescence the state is the fold of the log prefix: each entry applied once, in order.
+func ZZFollowerApplyDup(n, k int) {
+	total := n + k + 1
+	T := int64(3)
+	g := &zzGhost{term: make([]int64, total), val: make([]byte, total)}
+	w := zzNewWal("f")
+	m := &zzKV{}
+	d, _ := kv.NewDB("zz", 1, &zzFactory{kv: m}, 0, nil)
+	c := vChoice("applied", n+1) - 1
+	for i := 0; i < total; i++ {
+		g.term[i] = T
+		g.val[i] = byte(i)
+	}
+	for i := 0; i < n; i++ {
+		e := zzPutEntry(i, T, byte(i))
+		_ = w.AppendAsync(e)
+		if i <= c {
+			_, _ = d.ProcessWrite(&proto.WriteRequest{Puts: []*proto.PutRequest{{Key: "k", Value: []byte{byte(i)}}}}, int64(i), e.Timestamp, WrapperUpdateOperationCallback)
+		}
+	}
+	w.lastSynced = w.lastAppended
+	fc := zzFollowerOver(w, m, T)
+	w.yieldOnRead = true
+	w.openFwd, w.maxOpenFwd = 0, 0
+	st := &zzRepStream{ctx: context.Background(), in: make(chan *proto.Append, 1), w: w, ghost: g, payloadIsEntry: true, noAckOracle: true}
+	adv := int64(c)
+	deliver := func(o int, commit int64) {
+		vAssert("append-accepted", fc.append(&proto.Append{Term: T, Entry: zzPutEntry(o, T, byte(o)), CommitOffset: commit}, st) == nil)
+		// what the sync loop does after an append
+		w.lastSynced = w.lastAppended
+		fc.applyEntriesCond.Signal()
+		vYield("after-append")
+		vSettle(5)
+	}
+	for o := n; o < n+k; o++ {
+		adv += int64(vChoice("commit-step", 3))
+		vAssume(adv <= int64(o))
+		deliver(o, adv)
+	}
+	deliver(n+k-1, int64(n+k-1)) // the re-delivered duplicate: the leader's commit offset has advanced meanwhile
+	deliver(n+k, int64(n+k-1))
+	maxAdv := int64(n + k - 1)
+	// let the apply loop drain
+	for i := 0; i < 8 && fc.commitOffset.Load() < maxAdv; i++ {
+		fc.applyEntriesCond.Signal()
+		vYield("drain")
+		vSettle(10)
+	}
+	vAssert("apply-rounds-never-overlap", w.maxOpenFwd <= 1)
+	_ = fc.Close()
+	d2, err := kv.NewDB("zz", 1, &zzFactory{kv: m}, 0, nil)
+	vAssert("reopen", err == nil)
+	co, _ := d2.ReadCommitOffset()
+	vAssert("commit-offset-was-advertised", co <= maxAdv && co >= int64(c))
+	if co >= 0 {
+		gr, gerr := d2.Get(&proto.GetRequest{Key: "k", IncludeValue: true})
+		vAssert("state-is-the-fold-of-the-log-prefix", gerr == nil && gr.Status == proto.Status_OK && int64(gr.Value[0]) == co && gr.Version.VersionId == co && gr.Version.ModificationsCount == co)
+	}
+	vReach("end")
+}
